@@ -36,7 +36,7 @@ def explore(sem, root, env=None, max_depth=12):
     seen = set()
 
     def go(body, env, via, depth, args=None, upvars=None, parent=None):
-        key = (body.path, env_key(env), via[-1] if via else None)
+        key = (body.path, env_key(env), id(parent[0]) if parent else None, parent[1] if parent else None)
         if key in seen or depth > max_depth:
             return
         seen.add(key)
